@@ -119,6 +119,9 @@ def select(fn: ast.AST, sel):
                 len(sel) == 2 or sel[1] in ast.unparse(n.elt)):
             # ("elt", k) / ("elt", substring, k): the element expression of the k-th comprehension
             hits.append((n.lineno, n.col_offset, n.elt))
+        elif kind == "subscript_load" and isinstance(n, ast.Subscript) and isinstance(n.ctx, ast.Load) and ast.unparse(n.value) == sel[1]:
+            # ("subscript_load", var, k): the k-th expression `var[...]` read in the function (use `path` for slice bounds)
+            hits.append((n.lineno, n.col_offset, n))
         elif kind == "callarg" and isinstance(n, ast.Call) and len(n.args) > sel[2] and (
                 (isinstance(n.func, ast.Name) and n.func.id == sel[1])
                 or (isinstance(n.func, ast.Attribute) and n.func.attr == sel[1])):
@@ -271,6 +274,12 @@ class Tx:
                 if isinstance(n.right, ast.Constant) and n.right.value == 0.5:
                     return f"({self.f('sqrt')} {a})"
                 raise Unsupported(f"power {key}")
+        if isinstance(n, ast.Compare) and len(n.ops) > 1:  # chained comparison a < b <= c: conjunction of the links
+            links, left = [], n.left
+            for op, right in zip(n.ops, n.comparators):
+                links.append(self.e(ast.Compare(left=left, ops=[op], comparators=[right])))
+                left = right
+            return "(" + " && ".join(links) + ")"
         if isinstance(n, ast.Compare) and len(n.ops) == 1:
             a, b = self.e(n.left), self.e(n.comparators[0])
             op = {ast.Lt: "<", ast.LtE: "≤", ast.Gt: ">", ast.GtE: "≥", ast.Eq: "=", ast.NotEq: "≠"}.get(type(n.ops[0]))
